@@ -10,7 +10,7 @@ PROP = dict(
               "Pops.C06_within_generate", "Pops.C06_within_kernel", "Pops.C06_within_disperse",
               "Pops.C06_within_spread", "Pops.C06_within_overpopulation", "Pops.C06_within_movement",
               "Pops.C06_read_seeds", "Pops.C06_read_seeds_text_roundtrip", "Pops.C06_read_seeds_text",
-              "Pops.C06_read_seeds_malformed"],
+              "Pops.C06_read_seeds_malformed", "Pops.C06_deterministic_mode_partial", "Pops.C06_unused_seed_run_irrelevant", "Pops.C06_code_outside_spec", "Pops.C06_spec_within_code", "Pops.C06_region_iff", "Pops.C06_mem_usesRun", "Pops.C06_model_process_within", "Pops.C06_deterministic_establishment_multi_host_fails", "Pops.C06_movement_stochasticity_ignored", "Pops.C06_deterministic_dispersal_kernel_choice_fails"],
     commands=["rng.*"],
     runs={
         "quick": [("h_stream", "twice", 0, 400), ("h_stream", "uses", 0, 400), ("h_stream", "vary", 0, 200),
@@ -30,7 +30,7 @@ PROP = dict(
          "(alone; again after an unrelated run T; interleaved step by step with a second unrelated instance; two simultaneous instances stepped in alternating order) plus the unrelated configuration T three times; "
          "a 64-bit digest of every host raster, dispersers, established dispersers, outside dispersers, suitable cells, soil cohorts and sampled weather is printed per step and run; "
          "case (uses) = such a configuration over a multi-stream provider of counting engines, one line per action block of Model::run_step (trace hook) with the streams whose call counters moved; "
-         "case (vary) = such a configuration with named seeds run 11 times, each of the ten seeds changed in turn; "
+         "case (vary) = such a configuration with named seeds run 11 times, each of the ten seeds changed in turn; 58 % of the vary cases are steered (focus) into a deterministic mode: 2-3 hosts with establishment_stochasticity = false, movements with movement_stochasticity = false, anthropogenic kernel with dispersal_stochasticity = false and two deterministic kernels; "
          "case (order) = one provider construction (seed + multi flag incl. wrap-around seeds, named seeds, Config) over mt19937 / default_random_engine / mt19937_64 / a counting engine with up to 30 draws through the accessors next to fresh engines; "
          "case (reject) = one rejection scenario (missing keys through four entry points, single-generator use, SingleGeneratorProvider, read_seeds(vector) with 0-14 seeds, seed texts incl. 13 malformed record shapes); "
          "non-trivial = at least 3 steps on a landscape with a suitable cell and no exception (twice, vary: and at least one seed mattered), at least 3 action blocks of which one drew (uses), every order / reject case; "
@@ -44,7 +44,8 @@ PROP = dict(
                 "frame: any computation reaching the provider only through the accessors uses(P, features) allows returns a result, and final states of those streams, that depend only on their initial states and leaves all other streams untouched - "
                 "so the seed of an unused stream is irrelevant and a process with an empty uses set is a constant; the code-shaped skeletons of all processes stay within the table; "
                 "read_seeds(vector) accepts exactly ten seeds in the documented order; read_seeds(text) round-trips well-formed texts and rejects records without a key-value separator. "
-                "Differential: the driver compares run digests (determinism), checks moved-counters within uses(P, features), requires equal digests when a seed outside usesRun(features) is varied, "
+                "Deterministic modes: specUses(features) is what the property allows (a disabled or deterministic process uses no stream), usesRun(features) is what the code draws; specUses is within usesRun, and the two differ exactly in three regions (C06_code_outside_spec: F28 deterministic establishment with two or more hosts, F29 movement_stochasticity ignored, F32 kernel-choice coin under deterministic dispersal); the full-strength sentence C06_deterministic_mode_full is refuted on a witness in each region, C06_deterministic_mode_partial proves it outside them. "
+                "Differential: the driver compares run digests (determinism), checks moved-counters within uses(P, features), requires equal digests when a seed outside specUses(features) is varied (a difference inside one of the three regions is the open finding of that region, KNOWN C06 F28/F29/F32; anywhere else PROPFAIL C06), "
                 "and compares provider draws with fresh std engines seeded as the model says.",
 )
 
@@ -56,7 +57,7 @@ META = dict(engine="h_stream", design_ref="DESIGN.md section 3, C06",
          "hence results are independent of the seed of a disabled or deterministic process; read_seeds vector/text. "
          "Differential execution (not proof) for run-twice determinism: whole random Model simulations are repeated in one process alone, after other runs, interleaved with an unrelated instance and as simultaneous instances, digests compared bit for bit; "
          "the uses table is tied to the code by counting engines per action block and by varying each named seed; seed order by comparing provider draws with fresh std::mt19937 / default_random_engine / mt19937_64 engines. "
-         "Observations kept in the table, not claimed as violations: movement always draws (Config::movement_stochasticity is read nowhere); with two or more hosts establishment draws even when deterministic.",
+         "Open findings reported on every run (KNOWN-FINDING, known_findings.json): F28 establishment draws the receiving host when deterministic with two or more hosts, F29 Config::movement_stochasticity is read nowhere, F32 the natural-or-anthropogenic choice is drawn under deterministic dispersal.",
     note="Trusted: Lean kernel + propext/Classical.choice/Quot.sound; hand-written model of generator_provider.hpp, Config::read_seeds / read_key_value_pairs and of the draw sites of actions.hpp, natural_anthropogenic_kernel.hpp, soils.hpp, environment.hpp, host_pool.hpp, multi_host_pool.hpp (Model/Stream*.lean); harness h_stream.cpp and driver StreamEng.lean. "
          "unsigned as arithmetic modulo 2^32; an engine is abstract (seed, next); determinism of the C++ step is sampled, not proved.")
 
